@@ -13,4 +13,20 @@ namespace Romea.Hidden.C08
 
 theorem hidden_state_as_recorded : Romea.Generated.C08.hiddenState = [] := by rfl
 
+/-- The names (not only the types) of what every translated function reads, carries through its loops and returns are those
+    the bridge theorems were written against: a function that now reads or writes ANOTHER member of the same type keeps its Lean
+    type, and a positional application in a bridge would keep checking. -/
+theorem signatures_as_recorded : Romea.Generated.C08.signatures = [
+    "KNNResultSet.KNNResultSet (capacity_) result: capacity', count', dists', indices'",
+    "KNNResultSet.init (capacity dists_ indices_) result: count', dists', indices'",
+    "KNNResultSet.size (count) result: ret",
+    "KNNResultSet.full (capacity count) result: ret",
+    "KNNResultSet.addPoint.loop1 (capacity dist) carried: dists, i, indices",
+    "KNNResultSet.addPoint (fuel capacity count dist dists index indices) result: count', dists', indices' (none = fuel exhausted)",
+    "KNNResultSet.worstDist (capacity dists) result: ret",
+    "nanoflann.L2_Adaptor.accum_dist (a b) result: ret",
+    "nanoflann.L2_Adaptor.operator_call.loop1 (a b_idx kdtree_get_pt lastgroup worst_dist) carried: a_off, d, result, ret_set_1, ret_val_1",
+    "nanoflann.L2_Adaptor.operator_call.loop2 (a b_idx kdtree_get_pt last) carried: a_off, d, result",
+    "nanoflann.L2_Adaptor.operator_call (fuel a b_idx kdtree_get_pt size worst_dist) result: ret (none = fuel exhausted)"] := by rfl
+
 end Romea.Hidden.C08
